@@ -77,6 +77,12 @@ def step (st : State) (line : String) : State × String :=
       let t' := t.onDialFailure K k n 0
       ({ table := some t' }, showSelected t' k)
     | _, _, _ => (st, "bad-op")
+  | ["dialfailall", p, key], some t =>
+    match num? p, key? key with
+    | some _, some k =>
+      let t' := t.onDialFailure K k 0 0
+      ({ table := some t' }, showSelected t' k)
+    | _, _ => (st, "bad-op")
   | ["disconnected", p, key], some t =>
     match num? p, key? key with
     | some _, some k =>
